@@ -112,7 +112,7 @@ pub fn map_constructor(
         let mut map = map_obj.borrow_mut();
         if let ExoticObject::Map { ref mut entries } = map.exotic {
             for (key, value) in pairs {
-                entries.insert(JsMapKey(key), value);
+                entries.insert(JsMapKey::for_insert(key), value);
             }
             let len = entries.len();
             map.set_property(size_key, JsValue::Number(len as f64));
@@ -164,7 +164,7 @@ pub fn map_set(
     let mut map = map_obj.borrow_mut();
 
     if let ExoticObject::Map { ref mut entries } = map.exotic {
-        entries.insert(JsMapKey(key), value);
+        entries.insert(JsMapKey::for_insert(key), value);
         let len = entries.len();
         map.set_property(size_key, JsValue::Number(len as f64));
     }
